@@ -13,7 +13,7 @@
      - the observable of the correspondence ([outcome]) and the property's boolean form. *)
 From Coq Require Import List NArith ZArith Bool String.
 From RareV Require Import Base.Hex Base.Res Base.Num Gen.GenC11 Gen.GenC17 Gen.GenFuncs Gen.GenPanicSites
-  Model.Ctx Model.Humanize Model.CsvItem Model.Funcs Model.Drawing.
+  Model.Ctx Model.Humanize Model.CsvItem Model.Funcs Model.Drawing Model.Splitter.
 Import ListNotations.
 Local Open Scope Z_scope.
 
@@ -259,6 +259,20 @@ Definition range_overflow (vs : list bytes) : bool :=
   | _ => false
   end.
 
+(* ------------------------------------------------------------------ accumulator contexts (pkg/aggregation/accumulator.go) *)
+(* exprAccumulatorContext.GetMatch (rare reduce -a / -g): {0} is the whole match, {i} its i-th NUL-separated
+   field, "" past the last field and for negative i.  accumulatorGroupSortContext.GetMatch (--sort): {i} is
+   part i (from 0) of the group key.  After repair C08-accumulator-index the loop stops at the last field;
+   the value is the same (Model/Agg.v get_match, C07), so only the number of rounds is bounded:
+   [acc_rounds] = how often Splitter.Next is called. *)
+Definition acc_fields (m : bytes) : list bytes := Splitter.split [0%N] m.
+Definition field_at (fs : list bytes) (k : Z) : bytes :=          (* k from 0 *)
+  if (k <? 0) || (Z.of_nat (List.length fs) <=? k) then [] else nth (Z.to_nat k) fs [].
+Definition acc_get_match (m : bytes) (idx : Z) : bytes :=
+  if idx =? 0 then m else field_at (acc_fields m) (idx - 1).
+Definition sort_get_match (key : bytes) (idx : Z) : bytes := field_at (acc_fields key) idx.
+Definition acc_rounds (m : bytes) (idx : Z) : Z := Z.max 0 (Z.min idx (Z.of_nat (List.length (acc_fields m)))).
+
 (* ------------------------------------------------------------------ panic-site coverage *)
 Inductive guard :=
 | G_compile       (* Tmpl.compile never panics (C09_compile_total) *)
@@ -465,6 +479,7 @@ Definition covered : list (string * string * string * string * cover) := [
   ("pkg/humanize/units.go", "AlwaysByteSizeSi", "slice", "siSizes[:]", Inert "full / empty slice of an array or buffer");
   ("pkg/humanize/units.go", "AlwaysDownscale", "slice", "unitSize[:]", Inert "full / empty slice of an array or buffer");
   ("pkg/humanize/units.go", "unitize", "index", "units[0]", Lemma G_unitize);
+  ("pkg/expressions/stdlib/funcsArithmatic.go", "arithmaticHelperiEx", "make", "make([]typedStage[int], len(args))", Inert "length is a len(..) expression");
   ("pkg/expressions/stageAnalysis.go", "IsStaticProbe", "typeassert", "context.(StaticProbe)", Inert "comma-ok type assertion");
   ("pkg/expressions/stdlib/funcsArithmatic.go", "unaryArithmaticHelperfi", "shift", "1 << 63", Inert "constant shift count");
   ("pkg/humanize/units.go", "unitizeFloat", "quo", "nf /= sf", Inert "float64 division");
@@ -506,6 +521,7 @@ Inductive ccase :=
 | CFlat (n : string) (args : list arg) (o : oracle)   (* one call of a helper with an output model, value arguments *)
 | CRange (vs : list bytes)                            (* {@range ..} on these argument values *)
 | CInf                                                (* an @for whose condition never turns false *)
+| CAcc (m : bytes) (idx : Z)                          (* the expression {idx} as accumulator / group of one sample m *)
 | CAny.                                               (* any other template *)
 
 Definition of_result (r : result bytes) : outcome := match r with Ok s => RetOk s | Panic => RetPanic end.
@@ -514,6 +530,7 @@ Definition predict (c : ccase) : outcome :=
   | CFlat n args o => match eval_name n args o with Some r => of_result r | None => RetAny end
   | CRange vs => match range_class vs with 1%N => RetOk M_ErrorValue | 2%N => RetNot M_ErrorValue | _ => RetAny end
   | CInf => RetOk ForInfMarker
+  | CAcc m idx => RetOk (acc_get_match m idx)
   | CAny => RetAny
   end.
 
